@@ -2,13 +2,16 @@
 """Generates /verif/MANIFEST.json. Edit the tables below, not the JSON."""
 import json, subprocess
 
-HOOK_COMMITS = ["51bbd89"]
+HOOK_COMMITS = ["51bbd89", "f3ebd98"]
 
 # id -> (technique, level text, level note, design ref)
 CHECKS = {
  "C01": ("panic/abort monitor at the BufferParser::print_char boundary (catch_unwind + panic hook + supervised worker processes with write-ahead journal), enumerated control-function table x screen states plus seeded grammar/raw/mutated streams; debug-assertion UB precondition checks observed as aborts",
          "Every character of every generated stream goes through the real emulation under a panic monitor; worker deaths (abort, stack overflow) are attributed to the single case in BEGIN state. The complete CSI table (63 finals x 8 intermediates x <=2 boundary parameters) x 8 state prefixes x 4 screens and ESC/lead-in + every byte for all 10 emulations are enumerated; longer histories are sampled. Held = no panic/abort on any observed execution.",
          "Characters are the 256 byte values. Resource exhaustion (work budget, allocation refusal, nesting) is C03's verdict, not C01's. Coverage beyond the enumerated table is sampling.", "DESIGN.md §4 C01"),
+ "C03": ("logical work counter (cfg hook ticks), counting global allocator, nesting guard and per-run CPU clock as runtime monitors; absolute-bound oracle plus metamorphic saturation oracle over parameter magnitudes; worker-death attribution for allocation refusal / stack overflow / CPU hang",
+         "Each template (complete CSI table with numeric slots, macro/sixel/font/margin families) is executed on the real engine with every slot at W*H+1, 2^16, 10^6 and 2^31-1. The monitors decide on deterministic counts (ticks, bytes requested, nesting depth), not wall-clock: ticks <= 16(n+1)WH*max(W,H), peak allocation <= 64MiB+4096n, nesting <= 32, and no growth beyond 2x between magnitudes >= 2^16. The CSI table is complete for parameter vectors of length <= 3 in quick and <= 6 in thorough.",
+         "One tick per cell/pixel/glyph operation at the hook sites; loops without a tick are only seen by the 2 s CPU clock and the 60 s supervisor watchdog. Bounds are generous constants chosen by the harness; macro replay (65536 chars) and sixel (2048 px) limits of the engine are treated as fixed constants.", "DESIGN.md §4 C03"),
  "C09": ("runtime invariant assertion after every print_char (cursor inside visible window, fixed 40x24 grid), exhaustive <=3-token sequences + seeded streams, violations shrunk by delta debugging",
          "The geometry invariant is evaluated after every character of every stream. All <=2-token sequences over a ~230-token alphabet and (thorough) all 3-token sequences over the 70-token core alphabet x 5 sizes x {fresh, scrollback} are enumerated; byte pairs for the non-CSI emulations; random streams up to 4 KiB.",
          "Streams are not checked after their first ResizeTerminal action. Streams ending in a panic are C01's matter.", "DESIGN.md §4 C09"),
